@@ -170,7 +170,7 @@ def c17_2(ctx: Ctx) -> RuleResult:
             guarded = False
             while cur is not None and cur is not gen.node:
                 if isinstance(cur, ast.If):
-                    ct = X.at(gen, cur.test)
+                    ct = X.value_at(gen, cur.test)
                     guarded = ct[0] == "attr" and ct[2] == "shared"
                 cur = parent(cur)
             ok = ok or (axis0 and count_ok and guarded)
